@@ -96,8 +96,8 @@ theorem filter_reuse {s : State} {ns name : String} {pod : Pod} (h : Scene s ns 
 /-- Bind for a pod without ranges whose key holds addresses: ok or waiting (or the named first address is not one of
     the key's), and when ok the annotation is exactly the address `Choice.first` resolves to -/
 theorem bind_reuse (F : Facts) {t : State} {ns name : String} {pod : Pod} {uid : Nat} (node : String)
-    (hs : BindScene t ns name pod uid) (ch : Choice) (hr : pod.ranges = []) (hk : ipsOfKey t (keyOf pod) ≠ [])
-    (hok : (bind F t ns name uid node ch).2.res = .ok) :
+    (hs : BindScene t ns name pod uid) (ch : Choice) (hans : ch.answer = .truthful) (hr : pod.ranges = [])
+    (hk : ipsOfKey t (keyOf pod) ≠ []) (hok : (bind F t ns name uid node ch).2.res = .ok) :
     ∃ ip, pickFirst ((ipsOfKey t (keyOf pod)).map some) ch.first = some ip ∧
       (bind F t ns name uid node ch).2.ips = [toHInfo t ip] := by
   have hne : (List.map some (ipsOfKey t (keyOf pod))).isEmpty = false := by
@@ -122,7 +122,7 @@ theorem bind_reuse (F : Facts) {t : State} {ns name : String} {pod : Pod} {uid :
           (t, .ok, [some ip0]) := by
         unfold bindAlloc
         simp [hr, unfoundRanges]
-      have fin := bind_finish F node hs ch [some ip0] hi hu _ _ hAeq hs.coh (Frame.refl t)
+      have fin := bind_finish F node hs ch hans [some ip0] hi hu _ _ hAeq hs.coh (Frame.refl t)
         (fun j hj _ => by
           simp at hj; subst hj
           exact owns_of_mem_ipsOfKey hs.coh.allocNodup hmem)
